@@ -112,3 +112,44 @@ Definition single_loop_b (g : graph) (on : nat -> bool) : bool :=
 (* point v is visited by the drawn line *)
 Definition on_line (g : graph) (on : nat -> bool) (v : nat) : bool :=
   negb (Nat.eqb (degree g on v) 0).
+
+(* the drawn segment leaving lattice point (y, x) in direction d
+   (0 up, 1 down, 2 left, 3 right); false at the rim *)
+Definition seg (P Q : nat) (on : nat -> bool) (y x : nat) (d : nat) : bool :=
+  match d with
+  | 0 => Nat.ltb 0 y && on (vseg P Q (y - 1) x)
+  | 1 => Nat.ltb (S y) P && on (vseg P Q y x)
+  | 2 => Nat.ltb 0 x && on (hseg P Q y (x - 1))
+  | _ => Nat.ltb (S x) Q && on (hseg P Q y x)
+  end.
+(* the neighbouring lattice point in direction d (only used where seg is true) *)
+Definition step_dir (y x d : nat) : nat * nat :=
+  match d with 0 => (y - 1, x) | 1 => (S y, x) | 2 => (y, x - 1) | _ => (y, S x) end.
+Definition opposite (d : nat) : nat := match d with 0 => 1 | 1 => 0 | 2 => 3 | _ => 2 end.
+(* number of consecutive drawn segments starting at (y, x) going in direction d *)
+Fixpoint run_len (fuel : nat) (P Q : nat) (on : nat -> bool) (y x d : nat) : nat :=
+  match fuel with
+  | O => O
+  | S f => if seg P Q on y x d
+           then let '(y', x') := step_dir y x d in S (run_len f P Q on y' x' d)
+           else O
+  end.
+
+(* number of connected components of the graph formed by the selected edges
+   (isolated vertices count) *)
+Definition n_components (g : graph) (eon : nat -> bool) : nat :=
+  count (fun v => match component g (fun _ => true) eon v with
+                  | [] => false
+                  | c => forallb (fun u => Nat.leb v u) c
+                  end) (seq 0 (nv g)).
+(* the selected edges contain no cycle: a forest has V - C edges *)
+Definition edges_acyclic (g : graph) (eon : nat -> bool) : bool :=
+  Nat.eqb (count eon (seq 0 (length (edges g))) + n_components g eon) (nv g).
+
+(* rows of a given shape: the candidate-answer lists of the Latin-square-like
+   puzzles are products of admissible rows *)
+Fixpoint rows_product (rows : list (list Z)) (k : nat) : list answer :=
+  match k with
+  | O => [[]]
+  | S k' => let rest := rows_product rows k' in flat_map (fun r => map (app r) rest) rows
+  end.
